@@ -127,7 +127,7 @@ def validate_chain_traces(job, spec_traces, workers=None, timeout=3000):
     path = os.path.join(d, "traces.json")
     with open(path, "w") as fh:
         json.dump(spec_traces, fh)
-    cfg = tlc.cfg_text(constants={"Options": "{}", "ClearEachIteration": "TRUE"}, init="TraceInit", next_="TraceNext",
+    cfg = tlc.cfg_text(constants={"Options": "{}", "ClearEachIteration": "TRUE", "InterruptibleSMC": "FALSE"}, init="TraceInit", next_="TraceNext",
                        invariants=["TraceProtocol", "EntriesCurrent", "CacheFresh", "Accepted"], view="tview")
     r = tlc.run_tlc(job, "TraceChain", cfg, workers=workers, timeout=timeout, environ={"TRACE_FILE": path})
     matched = set()
@@ -137,11 +137,11 @@ def validate_chain_traces(job, spec_traces, workers=None, timeout=3000):
     return r, [k for k in range(1, len(spec_traces) + 1) if k not in matched]
 
 
-def model_check_chain(job, clear=True):
+def model_check_chain(job, clear=True, interruptible=False):
     mc = ("---- MODULE MC_Chain ----\nEXTENDS Chain\n"
           "OptSet == [burnin : {0, 1, 2}, iters : {0, 1, 3, 4}, thin : {1, 2, 3}, tmax : {\"inf\", \"zero\", \"finite\"}, conc : BOOLEAN, "
           "sub : {\"never\", \"maybe\", \"always\"}, ndp : {0, 1, 2}, nprg : {0, 1}]\n====\n")
-    cfg = tlc.cfg_text(spec="Spec", constants={"Options": "<- OptSet", "ClearEachIteration": tlc.tla_bool(clear)},
-                       invariants=["TraceProtocol", "TraceComplete", "EntriesCurrent", "CacheFresh"],
+    cfg = tlc.cfg_text(spec="Spec", constants={"Options": "<- OptSet", "ClearEachIteration": tlc.tla_bool(clear), "InterruptibleSMC": tlc.tla_bool(interruptible)},
+                       invariants=["TraceProtocol", "TraceComplete", "EntriesCurrent", "CacheFresh", "EntriesWhole"],
                        properties=["AppendOnly", "AlphaOnlyAtConc", "Terminates"], view="view")
     return tlc.run_tlc(job, "MC_Chain", cfg, mc_text=mc, timeout=1500)
